@@ -28,10 +28,10 @@ func TestMain(m *testing.M) {
 		os.Exit(childMain(p))
 	}
 	if kit.RaceMode() {
-		kit.TestMain(m, 50, 1000)
+		kit.TestMain(m, 45, 1000)
 		return
 	}
-	kit.TestMain(m, 250, 4000)
+	kit.TestMain(m, 225, 4000)
 }
 
 // Case is a set of histories on distinct documents plus the two schedules they are executed under.
@@ -56,10 +56,12 @@ var families = map[string][]string{
 	"page":  {"pagesize", "custompage", "orient", "margins", "hfdist", "gutter", "docgrid", "cleargrid"},
 	"table": {"table", "celltext", "cellpara", "insrow", "appcol", "mergeh", "nested"},
 	"tpl":   {"tplstr", "tpldoc", "tpldoc2"},
-	"md":    {"md"},
+	"md":    {"md", "mdc"},
 	"toc":   {"toc", "autotoc", "updatetoc"},
 	// documents derived from one another (derived.go)
-	"derived": {"swap", "notecount", "rmfootnote", "rmendnote", "reopen"},
+	"derived": {"swap", "notecount", "rmfootnote", "rmendnote", "reopen", "openforeign"},
+	// the style manager used directly (styles.go)
+	"stylemgr": {"restyle", "rmstyle"},
 }
 var focusNames = []string{"image", "hf", "style", "props", "page", "table", "tpl", "md", "toc"}
 
@@ -134,7 +136,9 @@ func weights(registry bool, focus []string) map[string]int {
 	w["md"] *= 2
 	for _, f := range focus {
 		for _, k := range families[f] {
-			w[k] *= 8
+			if _, ok := w[k]; ok { // local kinds are not drawn by ops.Config
+				w[k] *= 8
+			}
 		}
 	}
 	for k := range registryFam {
@@ -200,10 +204,17 @@ func genCase(t *rapid.T) Case {
 		}
 		c.Cold = true
 	}
+	// one case in six: the documents of the case come (also) out of conversions with ONE Converter object and one
+	// option set, from texts that define names (link references, footnotes) and texts that use them (converter.go)
+	batch := -1
+	if rapid.IntRange(0, 5).Draw(t, "shared-converter") == 5 { // shrinks towards "no"
+		batch = rapid.IntRange(0, len(mdcPresets)-1).Draw(t, "batch-preset")
+	}
 	for d := 0; d <= k; d++ {
 		reg := mode == 2 || (mode == 1 && d == owner)
 		cfg := &ops.Config{Classes: classes, Weights: weights(reg, focus)}
 		h := cfg.History(t, 1, maxOps)
+		withSharedConverter(t, h)
 		if rapid.IntRange(0, 3).Draw(t, "derived-scenario") == 0 {
 			// documents derived from one another (template base / renders / siblings / reopened copies) and edits
 			// that jump between them: see derived.go
@@ -213,6 +224,12 @@ func genCase(t *rapid.T) Case {
 			}
 			cut := rapid.IntRange(0, len(h)).Draw(t, "scenario-at")
 			h = append(append(append([]ops.Op{}, h[:cut]...), sc...), h[cut:]...)
+		}
+		if batch >= 0 {
+			for i, m := 0, rapid.IntRange(1, 2).Draw(t, "nbatch"); i < m; i++ {
+				at := rapid.IntRange(0, len(h)).Draw(t, "batch-at")
+				h = append(append(append([]ops.Op{}, h[:at]...), mdcOp(t, batch)), h[at:]...)
+			}
 		}
 		if len(prefix) > 0 {
 			var hp []ops.Op
@@ -286,6 +303,8 @@ type docRun struct {
 	settled map[*document.Document]bool // set-aside documents observed at least once since they were set aside
 	targets []*document.Document
 	born    map[*document.Document]birth
+
+	conv *convPool // the Converter objects the "mdc" ops of this history use (converter.go)
 
 	tbOK     bool   // the final ToBytes of the current document succeeded
 	zipNames string // race twin: only the entry names of the final ToBytes are kept
@@ -428,7 +447,7 @@ func newRun(base string, d int) *docRun {
 	if p, _ := kit.Try(func() { x = ops.NewExec(dir) }); p != nil {
 		return &docRun{dead: true, outcomes: []string{fmt.Sprintf("New:panic:%v", p)}}
 	}
-	return &docRun{x: x}
+	return &docRun{x: x, conv: newConvPool()}
 }
 
 // newTracked: the observation of a document at the moment it is set aside calls accessors that initialise lazily
@@ -500,12 +519,14 @@ func runInterleaved(base string, c Case) ([]*Snap, []int, [][]string, [][]string
 	runs := make([]*docRun, n)
 	next := make([]int, n)
 	var sched []int
+	pool := newConvPool() // ONE set of Converter objects for all documents of the case (converter.go)
 	stepDoc := func(d int) {
 		if next[d] >= len(c.Docs[d]) {
 			return
 		}
 		if runs[d] == nil {
 			runs[d] = newTracked(base, d, c.Docs[d])
+			runs[d].conv = pool
 		}
 		runs[d].step(c.Docs[d][next[d]])
 		next[d]++
@@ -814,7 +835,7 @@ func run(c Case) *kit.Result {
 	}
 	res.Label(fmt.Sprintf("docs:%d", n))
 	for _, h := range c.Docs {
-		opened, derived := false, false
+		opened, derived, foreign := false, false, false
 		for _, o := range h {
 			switch o.K {
 			case "reopen":
@@ -839,7 +860,42 @@ func run(c Case) *kit.Result {
 				}
 			case "notecount":
 				res.Label("derived:notecount")
+			case "openforeign":
+				opened, foreign = true, true
+			case "restyle", "rmstyle":
+				if derived && opened {
+					res.Label("derived:style-edit-after-render-of-opened-base")
+					if foreign {
+						res.Label("derived:style-edit-in-family-of-foreign-base")
+					}
+				}
+			case "save":
+				if derived {
+					res.Label("derived:save-between-edits")
+				}
 			}
+		}
+	}
+	// conversions with a shared Converter object: which option sets (= converters) are used by several documents of
+	// the case (interleaved run) or several times inside one history
+	convDocs := map[string]int{}
+	for _, h := range c.Docs {
+		mine := map[string]int{}
+		for _, o := range h {
+			if o.K == "mdc" {
+				mine[fmt.Sprint(o.B, iArg(o, 0))]++
+			}
+		}
+		for key, cnt := range mine {
+			convDocs[key]++
+			if cnt >= 2 {
+				res.Label("converter:reused-inside-history")
+			}
+		}
+	}
+	for _, cnt := range convDocs {
+		if cnt >= 2 {
+			res.Label("converter:shared-by-documents")
 		}
 	}
 	regDocs := 0
@@ -886,8 +942,8 @@ func run(c Case) *kit.Result {
 				continue
 			}
 			for _, dl := range diffSnaps(finalItems(alone[d]), finalItems(ps), 3) {
-				res.Fail("C07.I5", "doc=%d: the final document of the history differs when the %d calls made on OTHER documents of the history (siblings, unrelated documents, ancestors after the derivation) are left out: item=%s: %s",
-					d, len(c.Docs[d])-len(hp), dl.Item, strings.Replace(dl.Detail, "alone vs together", "whole history vs projection", 1))
+				res.Fail("C07.I5", "doc=%d: the final document of the history differs when the %d calls made on OTHER documents of the history (siblings, unrelated documents, ancestors after the derivation) are left out and the %d conversions that made other documents use a converter of their own: item=%s: %s",
+					d, len(c.Docs[d])-len(hp), countKind(hp, "md")-countKind(c.Docs[d], "md"), dl.Item, strings.Replace(dl.Detail, "alone vs together", "whole history vs projection", 1))
 			}
 		}
 	}
@@ -1004,7 +1060,8 @@ func TestC07(t *testing.T) {
 		Rule: "2-5 generated histories (1-12 ops each, thorough 1-25; whole document API, strings of all classes) on distinct documents, a drawn sequential interleaving and a drawn concurrent schedule (Gosched points, GOMAXPROCS 2/4/16); " +
 			"1-3 drawn focus families (images, headers/footers, styles, properties, page settings, tables, templates, markdown, TOC) are boosted in every document so that the documents use the same per-document machinery; " +
 			"non-trivial (normal binary) = A and some B have >=3 distinct op kinds and a B-op is executed strictly between two A-ops; non-trivial (race twin) = the same richness and min(3, #documents) goroutines overlapped in time (shared atomic step counter); " +
-			"one history in four contains a derived-documents scenario {1-3 ops of one or two families of per-document state (notes, lists most often), [reopen], [note counters read], render / two renders / reopen, 2-6 edits of the same families mixed with swaps back to set-aside documents, note removals by id}; " +
+			"one history in four contains a derived-documents scenario {[open a package written by another producer], 1-3 ops of one or two families of per-document state (notes, lists, TOC, style manager most often), [reopen], [note counters read], render / two renders / reopen, 2-6 edits of the same families mixed with swaps back to set-aside documents, saves of the member at hand, note removals by id; the style family edits the style manager of one member: restyle a defined style in place or by copy+AddStyle, CreateCustomStyle / RemoveStyle / new references with ids of a small pool}; " +
+			"two md conversions in three use a Converter object from a pool (one per option set; texts that define and use link references / footnotes / equal headings): alone and in its goroutine a history has its own pool, in the interleaved run all documents share one; one case in six puts 1-2 such conversions with one option set into every history; " +
 			"documents set aside inside a history are observed twice (I4); the history is executed again without the calls on other documents of its family (I5); both runs end with Save calls of all documents into one shared directory (one after the other / overlapping); " +
 			"cold cases (1 in 8, race twin 1 in 2): every history starts with the same 1-3 drawn ops and the concurrent part runs first of all in a fresh child process; " +
 			"distinct = distinct vector of (history length, op families used) per document",
@@ -1014,9 +1071,11 @@ func TestC07(t *testing.T) {
 			"lists the library writes in map-iteration order (children of w:numbering, w:footnotes, w:endnotes, w:styles, content-type and relationship lists) are compared as multisets; dcterms:created/modified are not compared; zip entry order is not compared",
 			"the race twin relies on the Go race detector (reports each distinct race once per process)",
 			"I5: ops that create or select a document (render, reopen, conversion, swap) are kept when the calls on other documents are removed; they are assumed not to edit the document they read, apart from what they do identically in both runs",
+			"a markdown.Converter is used by one goroutine at a time (the property does not state that one Converter may be shared between goroutines); the converters of a pool are always called with the option values they were made with",
 			"set-aside documents are observed after one discarded round of the same observer calls (the observer's calls are calls on the document: lazily materialised section properties, table style definitions registered by ToBytes)",
 		},
-		MustSee:   map[string]float64{"shared:style|header|image": 0.5, "registry:none": 0.2, "conc:cold-start": 0.05, "derived:rmnote": 0.1, "derived:swap": 0.1},
+		MustSee: map[string]float64{"shared:style|header|image": 0.5, "registry:none": 0.2, "conc:cold-start": 0.05, "derived:rmnote": 0.1, "derived:swap": 0.1,
+			"converter:shared-by-documents": 0.05, "derived:style-edit-after-render-of-opened-base": 0.03},
 		CaseLimit: 45 * time.Second, // a cold case starts a process; the machine may be busy
 	})
 }
